@@ -1420,6 +1420,16 @@ def main(repo: str, outdir: str, dry: bool = False) -> int:
         return (HEADER + "set_option linter.unusedVariables false\n\n"
                 "namespace Optyx.Generated\n\n" + body + "\nend Optyx.Generated\n")
 
+    def f_scaled():
+        import py2lean
+        import py2lean_scaled
+        try:
+            body = py2lean_scaled.gen_scaled(src("core/autodiff.py"))
+        except py2lean.TranslateError as e:
+            raise TranslateError(str(e))
+        return (HEADER + "import Optyx.Syntax\n\nset_option linter.unusedVariables false\n\n"
+                "namespace Optyx.Generated\nopen Optyx\n\n" + body + "\nend Optyx.Generated\n")
+
     def f_lpfast():
         import py2lean_lpfast
         try:
@@ -1481,7 +1491,7 @@ def main(repo: str, outdir: str, dry: bool = False) -> int:
                         ("DegreeStep", f_degstep), ("GradStep", f_gradstep), ("LPStep", f_lpstep), ("JacRowVec", f_jacrowvec),
                         ("ScipyPost", f_scipypost), ("ProblemEdit", f_problemedit),
                         ("ConstraintFns", f_constraintfns), ("SvsStep", f_svs), ("BuildStep", f_buildstep), ("Operators", f_operators), ("GradIterCtl", f_graditer), ("LPFast", f_lpfast), ("HookShape", f_hookshape), ("ClosurePaths", f_closurepaths), ("EvalStep", f_evalstep),
-                        ("VarsStep", f_varsstep), ("DegreeEntry", f_degentry), ("SymbolicJac", f_symjac), ("Spine", f_spine), ("VarsIter", f_varsiter), ("CompileEntry", f_entry), ("ParamClass", f_paramclass)):
+                        ("VarsStep", f_varsstep), ("DegreeEntry", f_degentry), ("SymbolicJac", f_symjac), ("Spine", f_spine), ("VarsIter", f_varsiter), ("CompileEntry", f_entry), ("ParamClass", f_paramclass), ("ScaledPattern", f_scaled)):
         path = os.path.join(outdir, fname + ".lean")
         try:
             text = make()
